@@ -9,12 +9,14 @@ Script operations (tuples):
     ("service", sym)         storage.add_service_event(content, kind, tags, created_at of the described event): signed by the relay
     ("writer",)              one transaction of the LMDB writer (no-op line on SQL is not emitted)
     ("drain",)               writer steps until the queue is empty (one Writer line each)
-    ("gc", T)                one garbage-collection pass with the clock at T0+T
+    ("gc", T)                one garbage-collection pass with the clock at T0+T; ("gc", T, "busy"): while a stored query of
+                             another client is being streamed (SQL: its connection stays checked out of the pool)
     ("delete", sym)          storage.delete_event(id)
     ("get", sym)             storage.get_event(id)
     ("http", sym)            GET /e/<id> through web.create_app(storage); ("http", sym, "upper"): the id in upper-case hex
     ("query", [absfilter])   a REQ's stored answer through storage.subscribe(...)
     ("squery", [absfilter])  storage.run_single_query(filters)
+    ("wsquery", [absfilter], sid)  the REQ sent through web.start_client on one long-lived connection (sub ids re-used)
 """
 import asyncio
 import logging
@@ -407,7 +409,24 @@ async def run_script(st, backend, uni, script, log_errors=None, keydump=None):
                 lines.append({"a": "Writer", "post": await dump_ids(st, backend, uni), "q": wq_abstract(st, uni), "bc": []})
         elif kind == "gc":
             set_clock(backend, op[1])
-            await run_gc(st, backend)
+            held = None
+            if len(op) > 2 and op[2] == "busy" and backend == "sql":
+                # another client's stored query is being streamed while the pass runs: its connection stays checked out of
+                # the pool, so the collector works on another one
+                import sqlalchemy as sa
+
+                held = st.run_query(sa.text("SELECT id, created_at, kind, pubkey, tags, sig, content FROM events"))
+                try:
+                    await held.__anext__()
+                except StopAsyncIteration:
+                    held = None
+            try:
+                await run_gc(st, backend)
+            finally:
+                if held is not None:
+                    # the slow reader gets the rest of its answer afterwards (the stream ends normally)
+                    async for _ in held:
+                        pass
             lines.append({"a": "Gc", "T": op[1], "post": await dump_ids(st, backend, uni), "q": wq_abstract(st, uni), "bc": []})
         elif kind == "delete":
             await st.delete_event(uni.conc_value(op[1]))
@@ -431,6 +450,25 @@ async def run_script(st, backend, uni, script, log_errors=None, keydump=None):
                     ev = {"id": "?"}
             lines.append({"a": "Get", "via": "http", "id": op[1], "found": status == 200, "got": _got(uni, ev), "_status": status,
                           "_ctype": ctype, "_spelling": op[2:]})
+        elif kind == "wsquery":
+            # the same REQ through the connection handler (web.start_client) of one long-lived connection of this script: the
+            # frames between the REQ and its EOSE are the answer.  op = ("wsquery", abstract filters, subscription id): ids are
+            # re-used without CLOSE, so most REQs replace a subscription that has already been answered.
+            fs, sid = op[1], (op[2] if len(op) > 2 else "feed")
+            ws = getattr(st, "_verif_ws", None)
+            if ws is None:
+                ws = st._verif_ws = WsConn(st)
+                await ws.start()
+            conc = [uni.conc_filter(f) for f in fs]
+            frames, err = await ws.req(sid, conc)
+            res = []
+            for fr in frames:
+                if fr[0] == "EVENT" and len(fr) == 3 and fr[1] == sid and isinstance(fr[2], dict):
+                    sym = uni.sym_event(fr[2])
+                    res.append(sym if sym is not None else "?" + str(fr[2].get("id"))[:16])
+                else:
+                    res.append("?frame:" + str(fr)[:24])
+            lines.append({"a": "Query", "fs": fs, "res": res, "_err": err, "_path": "ws", "_raw": False, "_skel": None, "_conc": None, "_sid": sid})
         elif kind in ("query", "squery", "rawquery"):
             fs = op[1]
             if kind == "rawquery":
@@ -463,6 +501,9 @@ async def run_script(st, backend, uni, script, log_errors=None, keydump=None):
             raise ValueError(op)
     if keydump is not None and lines and "post" in lines[-1] and "_keys" not in lines[-1]:
         lines[-1]["_keys"] = await keydump(st)
+    if getattr(st, "_verif_ws", None) is not None:
+        await st._verif_ws.stop()
+        st._verif_ws = None
     return lines
 
 
@@ -500,6 +541,77 @@ async def http_get(st, path, headers=None):
         if k.lower() == "content-type":
             ctype = v
     return collector.status, ctype, b"".join(collector.body_chunks)
+
+
+class WsConn:
+    """one connection of web.start_client over the script's storage, fed by hand"""
+
+    def __init__(self, st):
+        self.st = st
+        self.inbox = asyncio.Queue()
+        self.frames = []
+        self.cond = asyncio.Condition()
+        self.task = None
+
+    async def start(self):
+        import json
+
+        from nostr_relay import web
+        from nostr_relay.rate_limiter import NullRateLimiter
+
+        async def recv():
+            x = await self.inbox.get()
+            if x is None:
+                import falcon
+
+                raise falcon.WebSocketDisconnected()
+            return x
+
+        async def send(text):
+            async with self.cond:
+                self.frames.append(json.loads(text))
+                self.cond.notify_all()
+
+        async def close(code=1000):
+            pass
+
+        class _Q:
+            def __getattr__(self, name):
+                return lambda *a, **k: None
+
+        self.task = asyncio.create_task(web.start_client(self.st, send, recv, close, _Q(), rate_limiter=NullRateLimiter(), remote_addr="10.9.9.9"))
+
+    async def req(self, sid, conc, timeout=20):
+        import json
+
+        start = len(self.frames)
+        await self.inbox.put(json.dumps(["REQ", sid] + conc, ensure_ascii=False))
+
+        def done():
+            return any(f[0] == "EOSE" and f[1:2] == [sid] or f[0] == "NOTICE" for f in self.frames[start:])
+        err = None
+        try:
+            async with self.cond:
+                await asyncio.wait_for(self.cond.wait_for(done), timeout)
+        except asyncio.TimeoutError:
+            err = "timeout"
+        out = []
+        for f in self.frames[start:]:
+            if f[0] == "EOSE" and f[1:2] == [sid]:
+                break
+            if f[0] == "NOTICE":
+                err = "NOTICE: %s" % (f[1:],)
+                break
+            out.append(f)
+        return out, err
+
+    async def stop(self):
+        if self.task is not None:
+            await self.inbox.put(None)
+            try:
+                await asyncio.wait_for(self.task, 5)
+            except Exception:
+                self.task.cancel()
 
 
 def _clone(ev):
